@@ -636,3 +636,133 @@ func (c *Ctx) interfaceTypeErrorRule(rule string) {
 		r.Check(rule, sprintf("%s:return%d:well-typed-interface", FnKey(pm), i+1), c.InstrPos(ret), d.Implies(isHelperNil), "parseMethods can succeed without having asked whether the interface's declaration carries a type error; reach: "+d.Describe(c.O))
 	}
 }
+
+// derefRule: util.Deref tells pointer-ness and element type (feeds Var.Pointer / Var.Type of every emitted signature).
+func (c *Ctx) derefRule(rule string) {
+	r := c.R
+	r.Rule(rule, "util.Deref(t): answers (t.Elem(), true) exactly under t.(*types.Pointer) and (t, false) otherwise – createVar takes the pointer flag and the type name of every operand of an emitted signature from it; MethodEntry.Name() is the method object's name")
+	if fn := c.MustFunc(rule, "/pkg/util", "Deref"); fn != nil {
+		n := 0
+		isPtr := c.M(true, assertOK("*types.Pointer"))
+		notPtr := c.M(false, assertOK("*types.Pointer"))
+		for i, ret := range core.Returns(fn) {
+			if len(ret.Results) != 2 {
+				continue
+			}
+			n++
+			d := c.ReachOf(ret)
+			t0, t1 := c.O.Of(ret.Results[0]), c.O.Of(ret.Results[1])
+			ok := false
+			switch {
+			case d.Implies(isPtr):
+				ok = t0.IsCallTo("(*go/types.Pointer).Elem") && t1.Is("const", "true")
+			case d.Implies(notPtr):
+				ok = t0.Kind == "param" && t1.Is("const", "false")
+			}
+			r.Check(rule, sprintf("%s:return%d", FnKey(fn), i+1), c.InstrPos(ret), ok, "Deref must answer (Elem(), true) for a pointer and (t, false) otherwise, got ("+t0.String()+", "+t1.String()+") under "+d.Describe(c.O))
+		}
+		r.Floor(rule, "returns of util.Deref", n, 2)
+	}
+	if fn := c.MustMethod(rule, "/pkg/builder/model", "MethodEntry", "Name"); fn != nil {
+		rets := core.Returns(fn)
+		ok := len(rets) == 1
+		if ok {
+			t := c.O.Of(rets[0].Results[0])
+			ok = (t.Kind == "invoke" || t.Kind == "call") && strings.HasSuffix(t.Name, ".Name") && t.Contains(func(s *core.Term) bool { return s.IsField("model.MethodEntry.Method") })
+		}
+		r.Check(rule, FnKey(fn), c.Pos(fn.Pos()), ok, "MethodEntry.Name must be Method.Name()")
+	}
+}
+
+// pathLenRule: the path accessors of IdentMatcher agree on one field.
+func (c *Ctx) pathLenRule(rule string) {
+	r := c.R
+	r.Rule(rule, "IdentMatcher.PathLen() is len of the very slice that ExprAt, NameAt and ForGetter index with their argument (the resolvers loop `for i < PathLen()` over NameAt(i)/ForGetter(i): a shorter length drops the last path component silently, a longer one panics)")
+	pl := c.MustMethod(rule, "/pkg/option", "IdentMatcher", "PathLen")
+	if pl == nil {
+		return
+	}
+	rets := core.Returns(pl)
+	field := ""
+	if len(rets) == 1 {
+		t := c.O.Of(rets[0].Results[0])
+		if t.IsCallTo("builtin:len") && t.Args[0].Kind == "field" {
+			field = t.Args[0].Name
+		}
+	}
+	r.Check(rule, FnKey(pl)+":len-of-field", c.Pos(pl.Pos()), field != "", "PathLen must be len(<the path slice>)")
+	n := 0
+	for _, name := range []string{"ExprAt", "NameAt", "ForGetter"} {
+		fn := c.MustMethod(rule, "/pkg/option", "IdentMatcher", name)
+		if fn == nil {
+			continue
+		}
+		for _, b := range fn.Blocks {
+			for _, in := range b.Instrs {
+				ia, ok := in.(*ssa.IndexAddr)
+				if !ok {
+					continue
+				}
+				n++
+				x, idx := c.O.Of(ia.X), c.O.Of(ia.Index)
+				r.Check(rule, FnKey(fn)+":indexes-the-same-slice", c.InstrPos(ia), x.Kind == "field" && x.Name == field && idx.Kind == "param", name+" indexes "+x.String()+"["+idx.String()+"], PathLen is the length of "+field)
+			}
+		}
+	}
+	r.Floor(rule, "index expressions in the path accessors", n, 3)
+}
+
+// templatedArgsRule: `$n` sources are numbered from the source operand.
+func (c *Ctx) templatedArgsRule(rule string) {
+	r := c.R
+	r.Rule(rule, "templated `$n` sources: every call of resolveTemplatedExpr receives Src() of the mapper at hand and the list [<source node>] ++ <additional argument nodes> (`$1` is the source, `$k+1` the k-th additional argument, as documented); the node that becomes the assignment's right-hand side is the first result of castNode(<destination>.ExprType(), <resolved node>) and nil when the path did not resolve")
+	name := "(*" + pBld + "assignmentBuilder).resolveTemplatedExpr"
+	n := 0
+	for _, s := range c.CallsTo(name) {
+		n++
+		fn := s.Fn
+		key := sprintf("%s:resolveTemplatedExpr%d", FnKey(fn), n)
+		a := s.Args()
+		m := c.O.Of(a[1])
+		r.Check(rule, key+":matcher", c.Pos(s.Pos()), m.IsCallTo("(*"+pOpt+"NameMatcher).Src"), "the path resolved is not Src() of the mapper: "+m.String())
+		// the list: append(<one-element literal holding the source>, additionalArgs...)
+		okList := false
+		why := c.O.Of(a[2]).String()
+		if ap, ok := a[2].(*ssa.Call); ok && core.CalleeName(&ap.Call) == "builtin:append" && len(ap.Call.Args) == 2 {
+			first := c.varargAt(ap.Call.Args[0], 0)
+			second := c.varargAt(ap.Call.Args[0], 1)
+			rest := c.O.Of(ap.Call.Args[1])
+			isSrc := first != nil && (first.Kind == "fv" || first.Kind == "param") && (first.Name == "rhs" || strings.Contains(strings.ToLower(first.Name), "src"))
+			isExtra := (rest.Kind == "fv" || rest.Kind == "param") && strings.Contains(strings.ToLower(rest.Name), "arg")
+			okList = isSrc && second == nil && isExtra
+			if first != nil {
+				why = "[" + first.String() + "] ++ " + rest.String()
+			}
+		}
+		r.Check(rule, key+":argument-list", c.Pos(s.Pos()), okList, "the `$n` list must be [source] ++ additional arguments, got "+why)
+		// the closure answers castNode(lhs.ExprType(), resolved)[0] / nil
+		okRet := true
+		nr := 0
+		for _, ret := range core.Returns(fn) {
+			if len(ret.Results) != 1 {
+				continue
+			}
+			nr++
+			t := c.O.Of(ret.Results[0])
+			d := c.ReachOf(ret)
+			resolved := func(x *core.Term) bool { return x.Kind == "extract" && x.Name == "1" && x.Args[0].IsCallTo(name) }
+			switch {
+			case t.Is("const", "nil"):
+				okRet = okRet && d.Implies(c.M(false, resolved))
+			default:
+				okRet = okRet && d.Implies(c.M(true, resolved)) && t.Kind == "extract" && t.Name == "0" && t.Args[0].IsCallTo("(*"+pBld+"assignmentBuilder).castNode") &&
+					t.Args[0].Args[1].IsCallTo(invExprType) && strings.Contains(t.Args[0].Args[1].Args[0].Name, "lhs") &&
+					t.Args[0].Args[2].Kind == "extract" && t.Args[0].Args[2].Name == "0" && t.Args[0].Args[2].Args[0].IsCallTo(name)
+			}
+		}
+		if len(fn.FreeVars) > 0 { // the closure form
+			r.Check(rule, key+":answer", c.Pos(fn.Pos()), okRet && nr == 2, "the mapped node must be castNode(<destination>.ExprType(), <resolved node>)[0], and nil when the path did not resolve")
+		}
+	}
+	r.Floor(rule, "resolveTemplatedExpr call sites", n, 1)
+}
